@@ -84,6 +84,8 @@ class DeferStreamDirectiveOnRootField(ValidationRule):
                 fragment_name = selection.name.value
                 if fragment_name in visited_fragments:
                     continue
+                # mark as visited first, since fragment spreads may form cycles
+                visited_fragments.add(fragment_name)
                 fragment = fragments.get(fragment_name)
                 if fragment:
                     defer = get_directive(selection, GraphQLDeferDirective.name)
@@ -102,7 +104,6 @@ class DeferStreamDirectiveOnRootField(ValidationRule):
                         fragment.selection_set,
                         visited_fragments,
                     )
-                visited_fragments.add(fragment_name)
             else:  # the only remaining selection kind is an inline fragment
                 inline_fragment = cast("InlineFragmentNode", selection)
                 defer = get_directive(inline_fragment, GraphQLDeferDirective.name)
